@@ -23,7 +23,7 @@ Set(sq) == {sq[i] : i \in 1..Len(sq)}
 Accepts(s) == Set(C.steps[s].accepts)
 Acceptors(e) == {s \in Steps : e.ty \in Accepts(s) /\ (e.target = "*" \/ e.target = s)}
 
-St0 == [run |-> 0, emitted |-> {}, started |-> {}, waitgot |-> {}, unh |-> <<>>, bad |-> "ok"]
+St0 == [run |-> 0, emitted |-> {}, started |-> {}, mayretry |-> {}, waitgot |-> {}, unh |-> <<>>, bad |-> "ok"]
 UnhGet(u, k) == IF k \in DOMAIN u THEN u[k] ELSE 0
 UnhInc(u, k) == [x \in (DOMAIN u) \cup {k} |-> IF x = k THEN UnhGet(u, k) + 1 ELSE u[x]]
 
@@ -36,11 +36,14 @@ Apply(s, r) ==
   CASE r.e = "emit" -> [s0 EXCEPT !.emitted = @ \cup {[uid |-> r.uid, ty |-> r.ty, target |-> r.target]}]
     [] r.e = "step_start" ->
          LET es == {e \in s0.emitted : e.uid = r.uid} IN
-         [s0 EXCEPT !.started = @ \cup {<<r.step, r.uid>>},
+         [s0 EXCEPT !.started = @ \cup {<<r.step, r.uid>>}, !.mayretry = @ \ {<<r.step, r.uid>>},
                     !.bad = IF r.ty \notin Accepts(r.step) THEN "delivered_to_non_accepting_step"
                             ELSE IF \E e \in es : e.target # "*" /\ e.target # r.step THEN "delivered_to_other_than_addressed_step"
-                            ELSE IF Tr.plain[r.step] /\ r.retry = 0 /\ r.nth > 0 THEN "delivered_twice"
+                            \* a plain step (no collect/wait re-runs) sees an event again only as the retry of its own failure
+                            ELSE IF Tr.plain[r.step] /\ <<r.step, r.uid>> \in s0.started /\ <<r.step, r.uid>> \notin s0.mayretry
+                              THEN "delivered_twice"
                             ELSE @]
+    [] r.e = "step_end" /\ r.failed -> [s0 EXCEPT !.mayretry = @ \cup {<<r.step, r.uid>>}]
     [] r.e = "wait_ret" -> [s0 EXCEPT !.waitgot = @ \cup {<<r.step, r.got_uid>>},
                                       !.bad = IF <<r.step, r.got_uid>> \in s0.started THEN "wait_result_also_delivered_as_input" ELSE @]
     [] r.e = "pub" /\ r.p.k = "unhandled" ->
